@@ -222,8 +222,8 @@ def thorough_instances() -> list[Instance]:
             exts["nonsink"] = [nons[0]]
             exts["nonsink_sink"] = [nons[0]] + snk[:1]
         for (nh, nw) in [(1, 1), (1, 2), (2, 1), (2, 2), (3, 1)]:
-            if len(outs) >= 4 and (nh, nw) in [(2, 2)]:
-                continue
+            if len(outs) >= 3 and (nh, nw) in [(2, 2)]:
+                continue        # (2x2 clusters of the larger shapes are in the quick list as recorded executions)
             for tag, ext in exts.items():
                 name = f"{shape}_{nh}x{nw}_{tag}"
                 if name in seen:
